@@ -119,7 +119,7 @@ def lattice_jobs(tags, tier, rng, n3_points):
                 for name, flag in kc.MATS[tag]:
                     jobs.append((tag, n, name, flag, pts))
             if tag in ("RelK", "RelP"):
-                pts = below_points(n, rng, 12 if tier == "quick" else 60)
+                pts = below_points(n, rng, 12 if tier == "quick" else 150)
                 plan.append(("below", tag, n, pts))
                 for name, flag in kc.MATS[tag]:
                     jobs.append((tag, n, name, flag, pts))
@@ -272,7 +272,7 @@ def run(chk, replay=None):
         # (b) lattice
         n3 = {}
         if tier == "thorough" and not replay:
-            n3 = {tag: select_n3(tag, rng, 300) for tag in tags}
+            n3 = {tag: select_n3(tag, rng, 800) for tag in tags}
         if replay and replay.get("case", {}).get("kind") == "skel":
             c = replay["case"]
             pts = [(c["ord"], c.get("sub_rx"))]
@@ -312,11 +312,11 @@ def run(chk, replay=None):
             k = 0
             for n in ns:
                 for np_ in (1, 2, 3, 4):
-                    for rep in range(1 if tier == "quick" else 3):
+                    for rep in range(1 if tier == "quick" else 6):
                         k += 1
                         ojobs.append(("NRK", n, np_, 0, 1, "none", chk.seed * 7919 + k))
                     for L in range(5):
-                        for rep in range(1 if tier == "quick" else 2):
+                        for rep in range(1 if tier == "quick" else 4):
                             k += 1
                             X = real_X[(L + np_ + rep) % 3] if tier == "quick" else real_X[k % 3]
                             ojobs.append(("RelK", n, np_, L, 1 + (k % 3), X, chk.seed * 7919 + k))
